@@ -193,12 +193,12 @@ theorem C02_named_first_occurrence (env : Env) (ic : Interceptors) (s : Seg) (pa
   Seg.match_named_first_occurrence env ic s path cap rest hk he h
 
 /-- **No widening.** When a child's own segment matched with capture `cap` and the child's subtree
-missed, the search goes on with the NEXT sibling (the child's name deleted from the parameters); the
-child is not tried again with a longer capture. -/
+missed, the search goes on with the NEXT sibling (the parameter of the child's name put back to what it was before the
+child was tried, `restoreParam`, D30 repair); the child is not tried again with a longer capture. -/
 theorem C02_no_widening (env : Env) (ic : Interceptors) (c : Node) (cs : List Node) (path : Bytes) (ps : Params)
     (cap rest : Bytes) (ps2 : Params) (hm : c.seg.match env ic path = .yes cap rest)
     (hsub : c.matchChildren env ic rest (c.seg.record cap ps) = .miss ps2) :
-    matchFrom env ic (c :: cs) 0 path ps = matchFrom env ic cs 0 path (ps2.erase c.seg.name) :=
+    matchFrom env ic (c :: cs) 0 path ps = matchFrom env ic cs 0 path (restoreParam ps ps2 c.seg.name) :=
   matchFrom_give_up env ic c cs path ps hm hsub
 
 /-- Each child is tried exactly once per visit: the loop is a left fold of "try this child" over the
